@@ -2,8 +2,8 @@
    Statements only; every theorem is closed by a lemma of Proofs/WriterProofs.v or Proofs/FrameProofs.v.
    The deflate encoder is a parameter: `deflate_raw dict payload` is whatever flate.Writer emits after
    ResetDict/Write/Flush; the only facts assumed about it are that it returns bytes and fewer than 2^63 of them. *)
-From Gws Require Import Lib.Base Spec.MaskSpec Spec.Rfc6455 Model.Mask Model.Header Model.Writer
-  Proofs.FrameProofs Proofs.WriterProofs.
+From Gws Require Import Lib.Base Spec.MaskSpec Spec.Rfc6455 Model.Mask Model.Header Model.Writer Model.CloseCode
+  Proofs.FrameProofs Proofs.WriterProofs Proofs.CloseFrameProofs.
 Local Open Scope N_scope.
 
 Section C05.
@@ -57,6 +57,21 @@ Proof.
     as (rsv1 & payload & Hd & _).
   eexists. split; [exact Hd|]. split; reflexivity.
 Qed.
+
+(* the Close frames gws originates itself - WriteClose with any code and reason, and emitError after a transport fault or
+   a violation by the peer, whatever the length of the error text - are well-formed control frames: FIN set, at most
+   125 payload bytes in the 7-bit length form, no reserved bit, masked iff sent by a client *)
+Theorem C05_local_close_frame : forall c code reason fc key dict bytes rest,
+  code < 2 ^ 16 -> wf_bytes reason -> fc_fin fc = true -> length key = 4%nat -> wf_bytes key ->
+  gen_frame utf8_valid deflate_raw c 8 [local_close_body code reason] fc key dict = GFrame bytes ->
+  exists f, decode_frame (bytes ++ rest) = DFrame f true rest /\ outbound_wf (w_server c) f true = true /\ f_op f = 8.
+Proof. exact (local_close_frame_wf utf8_valid deflate_raw deflate_wf deflate_small). Qed.
+
+Theorem C05_error_close_frame : forall c reading e text fc key dict bytes rest,
+  0 < emit_error_status reading e < 2 ^ 16 -> wf_bytes text -> fc_fin fc = true -> length key = 4%nat -> wf_bytes key ->
+  gen_frame utf8_valid deflate_raw c 8 [error_close_body reading e text] fc key dict = GFrame bytes ->
+  exists f, decode_frame (bytes ++ rest) = DFrame f true rest /\ outbound_wf (w_server c) f true = true /\ f_op f = 8.
+Proof. exact (error_close_frame_wf utf8_valid deflate_raw deflate_wf deflate_small). Qed.
 End C05.
 
 (* streamed sends (WriteFile without compression): for EVERY sequence of reader results the frames are the RFC
@@ -125,6 +140,8 @@ Proof. vm_compute. repeat split; reflexivity. Qed.
 Print Assumptions C05_decode_gen.
 Print Assumptions C05_outbound_wf.
 Print Assumptions C05_do_write_one_frame.
+Print Assumptions C05_local_close_frame.
+Print Assumptions C05_error_close_frame.
 Print Assumptions C05_stream_frames.
 Print Assumptions C05_stream_one_message.
 Print Assumptions C05_flate_segments.
